@@ -7,6 +7,7 @@ import LuaHelper.Driver.GrammarOps
 import LuaHelper.Driver.ScopeOps
 import LuaHelper.Driver.HovOps
 import LuaHelper.Driver.PatOps
+import LuaHelper.Driver.OutlineOps
 open LuaHelper
 
 def dispatch (cmd : String) (args : List String) : String :=
@@ -32,6 +33,9 @@ def dispatch (cmd : String) (args : List String) : String :=
   | some r => r
   | none =>
   match PatOps.handle cmd args with
+  | some r => r
+  | none =>
+  match OutlineOps.handle cmd args with
   | some r => r
   | none => "bad-op"
 
